@@ -623,7 +623,11 @@ cannot parse duration string `%s'", argi->alt_inc_arg);
 		 * if one of them is a dt, promote the other */
 		if (dt_sandwich_only_d_p(fst)) {
 			/* emulates old dseq(1) */
-			if (argi->nargs == 1U) {
+			if (argi->nargs == 1U && fst.d.typ == DT_BIZDA) {
+				/* today need not be a business day */
+				lst.d = dt_date(DT_YMD);
+				dt_make_d_only(&lst, DT_YMD);
+			} else if (argi->nargs == 1U) {
 				lst.d = dt_date(fst.d.typ);
 				dt_make_d_only(&lst, fst.d.typ);
 			}
@@ -696,6 +700,13 @@ cannot parse duration string `%s'", argi->args[1U]);
 		    dt_sandwich_only_t_p(fst) || dt_sandwich_only_t_p(lst)) {
 			/* a time has no calendar to convert to or from,
 			 * it is completed with the other bound's date below */
+			clo.fst = fst;
+			clo.lst = lst;
+		} else if (fst.d.typ == DT_BIZDA &&
+			   dt_sandwich_only_d_p(fst) && dt_sandwich_only_d_p(lst) &&
+			   __daisy_feasible_p(clo.ite, clo.nite)) {
+			/* LAST on a Saturday or Sunday has no name as business
+			 * day of the month, keep it for the day counts below */
 			clo.fst = fst;
 			clo.lst = lst;
 		} else {
@@ -771,7 +782,7 @@ cannot convert calendric system internally");
 		goto out;
 	} else if (dt_sandwich_only_d_p(clo.fst) &&
 		   __daisy_feasible_p(clo.ite, clo.nite) &&
-		   clo.fst.d.typ == DT_BIZDA && clo.lst.d.typ == DT_BIZDA) {
+		   clo.fst.d.typ == DT_BIZDA && dt_sandwich_only_d_p(clo.lst)) {
 		/* Saturdays and Sundays have no name as business day of
 		 * the month, adding days gets stuck on the Friday before:
 		 * step through day counts and leave the weekends out */
